@@ -74,9 +74,9 @@ func closeEvent(m *vegeta.Metrics, via string) KV {
 		"lat_total": Big(uint64(m.Latencies.Total)), "lat_max": Big(uint64(m.Latencies.Max)), "lat_min": Big(uint64(m.Latencies.Min)),
 		"lat_mean": Big(uint64(m.Latencies.Mean))}
 	if m.Requests > 0 {
-		kv["earliest"] = Big(uint64(m.Earliest.UnixNano()))
-		kv["latest"] = Big(uint64(m.Latest.UnixNano()))
-		kv["end"] = Big(uint64(m.End.UnixNano()))
+		kv["earliest"] = Big(tsNs(m.Earliest))
+		kv["latest"] = Big(tsNs(m.Latest))
+		kv["end"] = Big(tsNs(m.End))
 		kv["duration"] = Big(uint64(m.Duration))
 		kv["wait"] = Big(uint64(m.Wait))
 		kv["success"] = scaledFloat(m.Success)
@@ -144,9 +144,9 @@ func closeEventJSON(bs []byte, via string) (KV, error) {
 		"lat_total": numBig(jr.Latencies.Total), "lat_max": numBig(jr.Latencies.Max), "lat_min": numBig(jr.Latencies.Min),
 		"lat_mean": numBig(jr.Latencies.Mean)}
 	if jr.Requests > 0 {
-		kv["earliest"] = Big(uint64(jr.Earliest.UnixNano()))
-		kv["latest"] = Big(uint64(jr.Latest.UnixNano()))
-		kv["end"] = Big(uint64(jr.End.UnixNano()))
+		kv["earliest"] = Big(tsNs(jr.Earliest))
+		kv["latest"] = Big(tsNs(jr.Latest))
+		kv["end"] = Big(tsNs(jr.End))
 		kv["duration"] = numBig(jr.Duration)
 		kv["wait"] = numBig(jr.Wait)
 		kv["success"] = numScaled(jr.Success)
@@ -158,8 +158,11 @@ func closeEventJSON(bs []byte, via string) (KV, error) {
 	return kv, nil
 }
 
+// tsNs is an instant as nanoseconds since 1970 - also beyond 2262, where UnixNano no longer can (good until 2554).
+func tsNs(t time.Time) uint64 { return uint64(t.Unix())*1000000000 + uint64(t.Nanosecond()) }
+
 func addEvent(r *vegeta.Result) KV {
-	return KV{"code": int(r.Code), "ts": Big(uint64(r.Timestamp.UnixNano())), "lat": Big(uint64(r.Latency)),
+	return KV{"code": int(r.Code), "ts": Big(tsNs(r.Timestamp)), "lat": Big(uint64(r.Latency)),
 		"bin": Big(r.BytesIn), "bout": Big(r.BytesOut), "err": r.Error}
 }
 
@@ -188,6 +191,10 @@ func genMultiset(r *rand.Rand, n int) []vegeta.Result {
 		}
 	}
 	span := []int64{1, 1000, 1e9, 3600e9}[r.Intn(4)]
+	if r.Intn(8) == 0 {
+		// results on both sides of 2262-04-11T23:47:16.854775807Z, the last instant that fits a count of nanoseconds since 1970
+		base = time.Unix(0, math.MaxInt64).Add(-time.Duration(span / 2))
+	}
 	maxLat := int64(math.MaxInt64/2) / int64(n+1)
 	out := make([]vegeta.Result, n)
 	for i := range out {
